@@ -245,6 +245,17 @@ def leavesInRange {K : Type} (scorer : Option SE) (leafCount : Nat) (qts : List 
   | none => true
   | some _ => qts.all fun q => q.2 < leafCount
 
+/-- scoring slots of the plan: (leaf, term keys) of every (group, field) that scores -/
+def slots {κ K : Type} (keysOf : κ → κ → Exp → List K) (groups : List (Group κ)) : List (Nat × List K) :=
+  groups.flatMap fun g =>
+    if g.score then
+      g.fields.filterMap fun s => (targetLeaf g s).map fun l => (l, keysOf s.field g.term g.exp)
+    else []
+
+/-- no term key is produced by two scoring slots that carry different leaves -/
+def slotsDisjoint {K : Type} [DecidableEq K] (sl : List (Nat × List K)) : Bool :=
+  sl.all fun a => sl.all fun b => a.1 == b.1 || a.2.all fun k => !b.2.contains k
+
 /-- what the two assertions do on one segment for a request (`qts` non-empty ⇒ the loop runs) -/
 inductive Verdict where
   | fine
